@@ -127,7 +127,12 @@ impl EventLoop {
     pub fn clean(&mut self) {
         self.network = None;
         self.keepalive_timeout = None;
-        self.pending.extend(self.state.clean());
+        // what was in flight on the failed connection was sent before anything still waiting in
+        // `pending` (the rest of an interrupted replay, requests carried over from the channel):
+        // it goes back in front, so that the original order survives repeated failures
+        for request in self.state.clean().into_iter().rev() {
+            self.pending.push_front(request);
+        }
 
         // drain requests from channel which weren't yet received
         let mut requests_in_channel: Vec<_> = self.requests_rx.drain().collect();
